@@ -10,7 +10,30 @@ Notation sfind := (find str_eqb).
 Definition mkd (T : table) (la lr : N) : @ldec str := {| d_data := T; d_last_assigned := la; d_last_reused := lr |}.
 
 (* the writer's table mirrors the referee's table (last-reused is the writer's own business here) *)
-Definition InvT (e : slenc) (T : table) (la : N) : Prop := @Inv str e (mkd T la (e_last_reused e)).
+(* ... and conversely every filled slot of the referee's table is a live entry of the writer, at that
+   index (so a string the writer does not hold is nowhere in the referee's table: C19, no redundant
+   entries) *)
+Definition Conv (e : slenc) (T : table) : Prop :=
+  forall j k, nth_error T j = Some (Some k) -> In (k, N.of_nat j + 1) (l_data (e_lookup e)).
+
+Definition InvT (e : slenc) (T : table) (la : N) : Prop :=
+  @Inv str e (mkd T la (e_last_reused e)) /\ Conv e T.
+
+Lemma conv_move k (e : slenc) l' la lr T :
+  move_to_end str_eqb k (e_lookup e) = Some l' -> Conv e T ->
+  Conv {| e_lookup := l'; e_last_assigned := la; e_last_reused := lr |} T.
+Proof.
+  intros Hmv HC j k' Hj. cbn. specialize (HC j k' Hj). unfold move_to_end in Hmv.
+  destruct (find str_eqb k (l_data (e_lookup e))) as [i|] eqn:Ef; [|discriminate]. inversion Hmv; subst; cbn.
+  eapply Permutation_in; [apply Permutation_sym; apply (move_perm str_eqb str_eqb_spec); exact Ef|exact HC].
+Qed.
+
+Lemma conv_init size : Conv (lenc_init size) (repeat None (N.to_nat size)).
+Proof.
+  intros j k H. exfalso. assert (G : forall n j, nth_error (repeat (@None str) n) j <> Some (Some k)).
+  { induction n as [|n IH]; intros [|j']; cbn; try discriminate. apply IH. }
+  exact (G _ _ H).
+Qed.
 
 (* ---- assign_entry / at_ on the decoder's representation = entry / tget of the referee ---- *)
 Lemma assign_is_entry id k T la lr d' :
@@ -34,7 +57,7 @@ Qed.
 (* a live writer entry is resolved by the referee *)
 Lemma live_entry_resolves e T la k i : InvT e T la -> sfind k (l_data (e_lookup e)) = Some i -> tget i T = SOk k /\ 1 <= i.
 Proof.
-  intros HI Hf. apply (find_In str_eqb str_eqb_spec) in Hf.
+  intros [HI _] Hf. apply (find_In str_eqb str_eqb_spec) in Hf.
   destruct HI as [Hp Hs Hk Hi Hr Hm Hfl Hfu Hla Hlr]. cbn in *.
   pose proof (Hr _ _ Hf) as Hrange. pose proof (Hm _ _ Hf) as Hnth.
   unfold tget, in_table, nlen. replace ((1 <=? i) && (i <=? N.of_nat (length T))) with true.
@@ -84,6 +107,39 @@ Proof.
   intros Ha Hb H. apply Nat.le_antisymm; apply NoDup_incl_length; auto; intros x Hx; apply H; assumption.
 Qed.
 
+(* a miss: the reader's slot i is overwritten with k, the writer drops whatever had index i *)
+Lemma conv_insert k (tb : slenc) T la l' i d' :
+  @Inv str tb (mkd T la (e_last_reused tb)) -> Conv tb T ->
+  insert k (e_lookup tb) = Some (l', i) ->
+  assign_entry (if i =? e_last_assigned tb + 1 then 0 else i) k (mkd T la (e_last_reused tb)) = Some d' ->
+  Conv {| e_lookup := l'; e_last_assigned := i; e_last_reused := e_last_reused tb |} (d_data d').
+Proof.
+  intros HI HC Hins Ha.
+  pose proof HI as [Hp Hs Hk Hi Hr Hm Hfl Hfu Hla Hlr]. cbn in Hs, Hm, Hla, Hlr.
+  (* the inserted index and what survives *)
+  assert (Hkeep : 1 <= i /\ In (k, i) (l_data l') /\ forall k' i', In (k', i') (l_data (e_lookup tb)) -> i' <> i -> In (k', i') (l_data l')).
+  { unfold insert in Hins. destruct (l_max (e_lookup tb) =? 0); [discriminate|].
+    destruct (l_evicting (e_lookup tb)).
+    - destruct (l_data (e_lookup tb)) as [|[k0 i0] rest] eqn:Ed; [discriminate|]. inversion Hins; subst; cbn.
+      split; [apply (Hr k0 i); now left|]. split; [apply in_or_app; right; now left|].
+      intros k' i' [Heq|Hin] Hne; [inversion Heq; subst; contradiction|apply in_or_app; now left].
+    - inversion Hins; subst; cbn. split; [lia|]. split; [apply in_or_app; right; now left|].
+      intros k' i' Hin _. apply in_or_app; now left. }
+  destruct Hkeep as (Hi1 & Hnew & Hold).
+  unfold assign_entry in Ha. cbn [d_last_assigned d_data mkd] in Ha.
+  set (ix := if (if i =? e_last_assigned tb + 1 then 0 else i) =? 0 then la + 1 else (if i =? e_last_assigned tb + 1 then 0 else i)) in Ha.
+  assert (Hix : ix = i).
+  { subst ix. rewrite Hla. destruct (N.eqb_spec i (la + 1)) as [->|Hne]; cbn [N.eqb]; [reflexivity|].
+    destruct (N.eqb_spec i 0); [lia|reflexivity]. }
+  rewrite Hix in Ha. destruct (in_range i (mkd T la (e_last_reused tb))); [|discriminate].
+  destruct (set_nth (N.to_nat (i - 1)) (Some k) T) as [T'|] eqn:Es; [|discriminate]. inversion Ha; subst d'; cbn.
+  intros j k' Hj. cbn.
+  destruct (Nat.eq_dec (N.to_nat (i - 1)) j) as [Hej|Hne].
+  - subst j. rewrite (set_nth_same _ _ _ _ Es) in Hj. inversion Hj; subst k'.
+    replace (N.of_nat (N.to_nat (i - 1)) + 1) with i by lia. exact Hnew.
+  - rewrite (set_nth_other _ _ _ _ _ Es Hne) in Hj. apply Hold; [exact (HC _ _ Hj)|]. lia.
+Qed.
+
 (* ---- entry_index: the guard, then hit or miss ---- *)
 Theorem entry_index_spec (tb tb' : slenc) (keys keys' : list str) (k : str) (oe : option N) (T : table) (la : N) :
   InvT tb T la -> Wk tb keys ->
@@ -96,7 +152,7 @@ Theorem entry_index_spec (tb tb' : slenc) (keys keys' : list str) (k : str) (oe 
   (forall k', In k' keys -> sfind k' (l_data (e_lookup tb')) = sfind k' (l_data (e_lookup tb))) /\
   lmax tb' = lmax tb /\ e_last_reused tb' = e_last_reused tb.
 Proof.
-  intros HI [Hnd Htc Hlive]. unfold entry_index.
+  intros [HI HC] [Hnd Htc Hlive]. unfold entry_index.
   destruct (lmax tb <? nlen (set_add k keys)) eqn:Eg; [discriminate|]. apply N.ltb_ge in Eg.
   destruct (encode_entry_index str_eqb k tb) as [[t1 oe1]|] eqn:Ee; [|discriminate].
   intros H; inversion H; subst tb' keys' oe; clear H.
@@ -107,7 +163,7 @@ Proof.
     inversion Ee; subst t1 oe1; clear Ee.
     destruct (hit_mirror str_eqb str_eqb_spec k tb _ l' HI Emv) as [HI' _].
     pose proof (move_to_end_find str_eqb str_eqb_spec k _ _ Hk Emv) as Hfind.
-    split; [exact HI'|]. split; [|split; [reflexivity|split; [|split]]].
+    split; [split; [exact HI'|exact (conv_move _ _ _ _ _ _ Emv HC)]|]. split; [|split; [reflexivity|split; [|split]]].
     + constructor; cbn.
       * now apply set_add_nodup.
       * rewrite set_add_touched. exact (touched_move str_eqb str_eqb_spec k _ l' keys Hk Htc Emv).
@@ -131,7 +187,8 @@ Proof.
     { unfold set_add. destruct (mem_str k keys) eqn:E; [apply mem_str_In in E; contradiction|reflexivity]. }
     split.
     + exists (d_data d'), (d_last_assigned d'). split; [exact Hent|].
-      unfold InvT; cbn. destruct d' as [dd dla dlr]; cbn in *. subst dlr. exact HI'.
+      pose proof (conv_insert k tb T la l' i d' HI HC Eins Ha) as HC'.
+      unfold InvT; cbn. destruct d' as [dd dla dlr]; cbn in *. subst dlr. split; [exact HI'|exact HC'].
     + assert (Hmax : l_max l' = l_max (e_lookup tb)).
       { unfold insert in Eins. destruct (l_max (e_lookup tb) =? 0); [discriminate|].
         destruct (l_evicting (e_lookup tb)); [destruct (l_data (e_lookup tb)) as [|[? ?] ?]; [discriminate|]|];
@@ -180,7 +237,7 @@ Theorem term_index_spec (e e' : slenc) (keys : list str) (k : str) (i : N) (T : 
   (forall k', sfind k' (l_data (e_lookup e')) = sfind k' (l_data (e_lookup e))) /\
   lmax e' = lmax e /\ e_last_reused e' = i /\ e_last_assigned e' = e_last_assigned e.
 Proof.
-  intros HI [Hnd Htc Hlive] Hk. unfold encode_term_index.
+  intros [HI HC] [Hnd Htc Hlive] Hk. unfold encode_term_index.
   destruct (move_to_end str_eqb k (e_lookup e)) as [l'|] eqn:Emv; [|discriminate].
   pose proof HI as [Hp Hs Hkk Hi Hr Hm Hfl Hfu Hla Hlr].
   pose proof (move_to_end_find str_eqb str_eqb_spec k _ _ Hkk Emv) as Hfind.
@@ -189,7 +246,8 @@ Proof.
   assert (Hmax : l_max l' = l_max (e_lookup e)).
   { unfold move_to_end in Emv. destruct (sfind k _); [|discriminate]. inversion Emv; reflexivity. }
   split; [|split; [|split; [|split; [|split; [|split]]]]].
-  - unfold InvT in *. cbn in *. destruct HI' as [A1 A2 A3 A4 A5 A6 A7 A8 A9 A10]. constructor; cbn in *; auto.
+  - split; [|exact (conv_move _ _ _ _ _ _ Emv HC)].
+    cbn in *. destruct HI' as [A1 A2 A3 A4 A5 A6 A7 A8 A9 A10]. constructor; cbn in *; auto.
   - constructor; cbn; [assumption| |].
     + assert (Hex : existsb (str_eqb k) keys = true) by (rewrite <- mem_str_existsb; now apply mem_str_In).
       pose proof (touched_move str_eqb str_eqb_spec k _ l' keys Hkk Htc Emv) as Ht. now rewrite Hex in Ht.
